@@ -31,6 +31,10 @@ func (uv unknownType) MarshalMsgpack() ([]byte, error) {
 
 const unknownWithRefinementsExt = 0x0c
 
+// maxRefinementsLen is the largest refinements blob that the decoder accepts,
+// and so the encoder must not produce anything longer.
+const maxRefinementsLen = 1024
+
 type unknownValRefinementKey int64
 
 const unknownValNullness unknownValRefinementKey = 1
@@ -64,25 +68,30 @@ func marshalUnknownValue(rng cty.ValueRange, path cty.Path, enc *msgpack.Encoder
 		lower, lowerInc := rng.NumberLowerBound()
 		upper, upperInc := rng.NumberUpperBound()
 		boundTy := cty.Tuple([]cty.Type{cty.Number, cty.Bool})
-		if lower.IsKnown() && lower != cty.NegativeInfinity {
-			mapLen++
-			refnEnc.EncodeInt(int64(unknownValNumberMin))
-			marshal(
-				cty.TupleVal([]cty.Value{lower, cty.BoolVal(lowerInc)}),
+		encodeBound := func(key unknownValRefinementKey, bound cty.Value, inc bool) {
+			// A bound whose encoding would take the refinements blob over
+			// the limit set by our decoder is left out, which makes the
+			// encoded range wider than the original but never narrower.
+			var boundBuf bytes.Buffer
+			boundEnc := msgpack.NewEncoder(&boundBuf)
+			boundEnc.EncodeInt(int64(key))
+			err := marshal(
+				cty.TupleVal([]cty.Value{bound, cty.BoolVal(inc)}),
 				boundTy,
 				nil,
-				refnEnc,
+				boundEnc,
 			)
+			if err != nil || refnBuf.Len()+boundBuf.Len() > maxRefinementsLen-8 {
+				return
+			}
+			mapLen++
+			refnBuf.Write(boundBuf.Bytes())
+		}
+		if lower.IsKnown() && lower != cty.NegativeInfinity {
+			encodeBound(unknownValNumberMin, lower, lowerInc)
 		}
 		if upper.IsKnown() && upper != cty.PositiveInfinity {
-			mapLen++
-			refnEnc.EncodeInt(int64(unknownValNumberMax))
-			marshal(
-				cty.TupleVal([]cty.Value{upper, cty.BoolVal(upperInc)}),
-				boundTy,
-				nil,
-				refnEnc,
-			)
+			encodeBound(unknownValNumberMax, upper, upperInc)
 		}
 	case rng.TypeConstraint() == cty.String:
 		if prefix := rng.StringPrefix(); prefix != "" {
@@ -183,7 +192,7 @@ func unmarshalUnknownValue(dec *msgpack.Decoder, ty cty.Type, path cty.Path) (re
 		return cty.DynamicVal, path.NewErrorf("unsupported extension type 0x%02x with len %d", typeCode, extLen)
 	}
 
-	if extLen > 1024 {
+	if extLen > maxRefinementsLen {
 		// A refinement description greater than 1 kiB is unreasonable and
 		// might be an abusive attempt to allocate large amounts of memory
 		// in a system consuming this input.
